@@ -39,8 +39,8 @@
 (* level first).  [RT]: AlgEqSem -- on every structure of the bounded      *)
 (* space, well-scoped or not, the walk accepts iff the structure is        *)
 (* well-scoped, and then yields exactly the specified use->binding map.    *)
-(* (ScopeMC.cfg / ScopeGen.tla enumerate; ScopeTrace.tla judges the real   *)
-(* language services against Def / Refs.)                                  *)
+(* (ScopeGen.tla enumerates the bounded space; ScopeTrace.tla judges the   *)
+(* real language services against Def / Refs.)                             *)
 (***************************************************************************)
 EXTENDS Naturals, Sequences, FiniteSets, TLC
 
@@ -209,80 +209,4 @@ AlgEqSem(f) ==
      /\ (~a.bad) = WellScoped(occ)
      /\ WellScoped(occ) => a.m = { <<i, Def(occ, i)>> : i \in nonbind }
 
----------------------------------------------------------------------------
-(* The bounded space of structures.  cost = number of scope events (every  *)
-(* node except lit; the function's own block is free).  With d = TRUE a    *)
-(* structure is built under the set `env` of names in scope: a binder      *)
-(* takes a name outside env, a use a name inside -- well-scoped by         *)
-(* construction (GenComplete).  With d = FALSE names are free and env is   *)
-(* not tracked: the space then contains the ill-scoped structures too.     *)
-Envs(d) == IF d THEN SUBSET Names ELSE {{}}
-Ext(d, env, xs) == IF d THEN env \cup (xs \ {Wild}) ELSE {}
-BindN(d, env) == IF d THEN Names \ env ELSE Names
-UseN(d, env)  == IF d THEN env ELSE Names
-BindW(d, env) == BindN(d, env) \cup {Wild}
-\* two pattern variables of one pattern: distinct names, or one wildcard (never both)
-PatPairs(d, env) == { xy \in BindW(d, env) \X BindW(d, env) : xy[1] # xy[2] }
-
-\* p: table of the lower costs, p[m][env] = [e |-> expressions, b |-> block contents] of cost exactly m
-Pairs(n)   == { c \in (0..n) \X (0..n) : c[1] + c[2] = n }
-Triples(n) == { c \in (0..n) \X (0..n) \X (0..n) : c[1] + c[2] + c[3] = n }
-
-ItemsOf(d, n, env, p) ==   \* items of cost n (>= 1) under env
-  { [k |-> "let", x |-> x, init |-> e] : x \in BindW(d, env), e \in p[n - 1][env].e }
-  \cup UNION { { [k |-> kk, x |-> xy[1], y |-> xy[2], i1 |-> e1, i2 |-> e2] :
-                   kk \in {"ltup", "lstr"}, e1 \in p[c[1]][env].e, e2 \in p[c[2]][env].e }
-               : c \in Pairs(n - 1), xy \in PatPairs(d, env) }
-ItemBinds(it) == IF it.k = "let" THEN {it.x} ELSE {it.x, it.y}
-
-ExprsOf(d, n, env, p) ==   \* expressions of cost n (>= 1) under env, nested blocks excluded
-  (IF n = 1 THEN { Use(x) : x \in UseN(d, env) } ELSE {})
-  \cup UNION { { [k |-> "lam", x |-> x, body |-> b, arg |-> a] :
-                   b \in p[c[1]][Ext(d, env, {x})].e, a \in p[c[2]][env].e }
-               : c \in Pairs(n - 1), x \in BindN(d, env) }
-  \cup UNION { { [k |-> "mat", scrut |-> s, x |-> x, ba |-> ba, y |-> y, bb |-> bb] :
-                   s \in p[c[1]][env].e, ba \in p[c[2]][Ext(d, env, {x})].e, bb \in p[c[3]][Ext(d, env, {y})].e }
-               : c \in Triples(n - 1), x \in BindW(d, env), y \in BindW(d, env) }
-  \cup UNION { { [k |-> "mor", scrut |-> s, x |-> x, body |-> b] :
-                   s \in p[c[1]][env].e, b \in p[c[2]][Ext(d, env, {x})].e }
-               : c \in Pairs(n - 1), x \in BindN(d, env) }
-  \cup UNION { { [k |-> "ifl", x |-> x, scrut |-> s, th |-> th, el |-> el] :
-                   s \in p[c[1]][env].e, th \in p[c[2]][Ext(d, env, {x})].e, el \in p[c[3]][env].e }
-               : c \in Triples(n - 1), x \in BindN(d, env) }
-
-\* block contents of cost n: a first item of cost i followed by contents of cost n - i, or only the final expression
-BlocksOf(d, n, env, p, es) ==
-  { [items |-> <<>>, fin |-> e] : e \in es }
-  \cup UNION { UNION { { [items |-> <<it>> \o r.items, fin |-> r.fin] :
-                           r \in p[n - i][Ext(d, env, ItemBinds(it))].b }
-                       : it \in ItemsOf(d, i, env, p) }
-               : i \in 1..n }
-
-RECURSIVE Tab(_, _)
-Tab(d, n) ==
-  IF n = 0 THEN 0 :> [env \in Envs(d) |-> [e |-> {Lit}, b |-> {[items |-> <<>>, fin |-> Lit]}]]
-  ELSE LET p == Tab(d, n - 1)
-           level == [env \in Envs(d) |->
-                      LET flat == ExprsOf(d, n, env, p)
-                          \* a nested block costs 1 and has at least one item
-                          nested == { [k |-> "blk", items |-> r.items, fin |-> r.fin] :
-                                        r \in { q \in p[n - 1][env].b : Len(q.items) >= 1 } }
-                          es == flat \cup nested
-                      IN [e |-> es, b |-> BlocksOf(d, n, env, p, es)]]
-       IN p @@ (n :> level)
-
-\* the parameters: sequences of distinct names of length 0..2 (each costs 1)
-ParamSeqs == {<<>>} \cup { <<x>> : x \in Names }
-             \cup { <<xy[1], xy[2]>> : xy \in { q \in Names \X Names : q[1] # q[2] } }
-
-\* all functions of cost <= n; d = TRUE: the well-scoped ones, by construction
-Funs(d, n) ==
-  LET tab == Tab(d, n)
-  IN UNION { UNION { { [params |-> ps, body |-> [k |-> "blk", items |-> r.items, fin |-> r.fin]] :
-                        r \in tab[m][Ext(d, {}, {ps[i] : i \in DOMAIN ps})].b }
-                     : m \in 0..(n - Len(ps)) }
-             : ps \in { q \in ParamSeqs : Len(q) <= n } }
-
-\* the directed generator yields exactly the well-scoped structures of the free space
-GenComplete(n) == Funs(TRUE, n) = { f \in Funs(FALSE, n) : WellScoped(Occ(f)) }
 =============================================================================
